@@ -49,6 +49,11 @@ func (css *CompactShareSplitter) WriteTx(tx []byte) error {
 	}
 
 	startShare := len(css.shares)
+	if css.done && !css.shareBuilder.IsEmptyShare() {
+		// the last share is the padded copy of the pending share made by
+		// Export; this write replaces it
+		startShare--
+	}
 
 	if err := css.write(rawData); err != nil {
 		return err
@@ -120,10 +125,15 @@ func (css *CompactShareSplitter) Export() ([]Share, error) {
 	var bytesOfPadding int
 	// add the pending share to the current shares before returning
 	if !css.shareBuilder.IsEmptyShare() {
-		bytesOfPadding = css.shareBuilder.ZeroPadIfNecessary()
-		if err := css.stackPending(); err != nil {
+		// pad a copy of the pending share so that the pending share itself can
+		// still be written to after exporting (see write)
+		var padded []byte
+		padded, bytesOfPadding = zeroPadIfNecessary(append([]byte(nil), css.shareBuilder.rawShareData...), ShareSize)
+		paddedShare, err := NewShare(padded)
+		if err != nil {
 			return []Share{}, err
 		}
+		css.shares = append(css.shares, *paddedShare)
 	}
 
 	sequenceLen := css.sequenceLen(bytesOfPadding)
